@@ -36,6 +36,19 @@ def _result(uri, cols=("count",)):
     return project.pixel_rows(c.pixels()[:], ["bin1_id", "bin2_id", *cols])
 
 
+def _prior_sibling(case):
+    """The process has, before the case, binned a record against ANOTHER bin table over the same chromosomes and lengths
+    (a second digest of the same genome) - through both sanitizer factories."""
+    if not case.get("prior_sibling"):
+        return
+    import pandas as pd
+    from cooler.create import sanitize_pixels, sanitize_records
+    sib = gen.bins_frame(gen.sibling_table(case["table"]), _VEC["names"])
+    f = pd.DataFrame({"chrom1": [cname(0)], "pos1": [0], "chrom2": [cname(0)], "pos2": [0]})
+    sanitize_records(sib, schema="pairs", tril_action="reflect", sort=True, validate=True)(f)
+    sanitize_pixels(sib, tril_action="reflect", sort=True)(pd.DataFrame({"bin1_id": [0], "bin2_id": [0], "count": [1]}))
+
+
 def _chunks(rows, size):
     return [rows[k:k + size] for k in range(0, len(rows), size)] or [[]]
 
@@ -63,6 +76,7 @@ def ig_records(case, ctx):
     symm = tril != "none"
     if case["via"] == "api":
         bins = gen.bins_frame(table, _VEC["names"])
+        _prior_sibling(case)
         enc = case.get("chrom_ids") == "integer"      # chromosome columns already hold the integer IDs (unknown: -1)
         san = sanitize_records(bins, schema="pairs", decode_chroms=not enc, is_one_based=case["one_based"],
                                tril_action=None if tril == "none" else tril, sort=True, validate=True)
@@ -132,6 +146,7 @@ def ig_bg2(case, ctx):
     symm = tril != "none"
     if case["via"] == "api":
         bins = gen.bins_frame(table, _VEC["names"])
+        _prior_sibling(case)
         san = sanitize_records(bins, schema="bg2", is_one_based=case["one_based"],
                                tril_action=None if tril == "none" else tril, sort=True)
 
@@ -180,6 +195,7 @@ def ig_coo(case, ctx):
     symm = tril != "none"
     if case["via"] == "api":
         bins = gen.bins_frame(table, _VEC["names"])
+        _prior_sibling(case)
         san = sanitize_pixels(bins, is_one_based=case["one_based"], tril_action=None if tril == "none" else tril, sort=True)
 
         def frames():
